@@ -453,6 +453,17 @@ def run_builder_cases(ctx, cases, stats):
         nm = {b for b in range(256) if code_nmb[b]}
         fl = [bytes(L(L(x)[0])) for x in L(L(verdict[6])[0])] if L(verdict[6]) else []
         any_match = False
+        if fl and tset and any(x in tset for l in fl for x in l):
+            ctx.violation("a fast-line literal contains the advertised line terminator: %r (hypothesis of C01 "
+                          "c01_lines_reported_iff_content_matches)" % fl, rep)
+
+        def find_lit(hay):
+            """Model/CoreLinePaths.v find_lit: leftmost occurrence, first literal in list order"""
+            for q in range(len(hay) + 1):
+                for l in fl:
+                    if hay.startswith(l, q):
+                        return q + len(l)
+            return None
         haystacks = list(c["lines"]) + [buf]
         for li, hay in enumerate(haystacks):
             sem = sem_matches(smv[li])
@@ -464,6 +475,13 @@ def run_builder_cases(ctx, cases, stats):
                 allm = [L(x) for x in L(pl[3])]
                 check_line_semantics(ctx, "line %d" % li, rep, sem, bool(pl[0]), find, shortest, allm)
                 cand = L(pl[4])
+                if fl:
+                    e = find_lit(hay)
+                    stats["find_lit_compared"] = stats.get("find_lit_compared", 0) + 1
+                    if (cand[1] if cand else None) != e or (cand and cand[0] != 1):
+                        ctx.violation("find_candidate_line answers %s but the literal search model (find_lit) gives %s on %r "
+                                      "(Model/CoreLinePaths.v regex_find_candidate no longer describes the code)"
+                                      % (cand, e, hay), rep, nfi=True)
                 if sem and not cand:
                     ctx.violation("find_candidate_line returns None on a line that has a match (line %d)" % li, rep)
             else:
